@@ -2874,8 +2874,9 @@ impl ModuleGraph {
   ) -> impl Iterator<Item = (&ModuleSpecifier, Result<&Module, &ModuleError>)>
   {
     self.module_slots.iter().filter_map(to_result).chain(
-      self.redirects.iter().filter_map(|(specifier, found)| {
-        let module_slot = self.module_slots.get(found)?;
+      self.redirects.iter().filter_map(|(specifier, _)| {
+        // the module may be several redirects away
+        let module_slot = self.module_slots.get(self.resolve(specifier))?;
         to_result((specifier, module_slot))
       }),
     )
